@@ -65,6 +65,9 @@ def run(ck: Checker):
         from .c04 import check_containment
 
         check_containment(ck, 'C04-1')  # a failing preprocess / call becomes that request's answer; the service loops go on
+        from .c04 import check_ensemble_slots
+
+        check_ensemble_slots(ck, 'C04-2')  # a request that failed in every member is answered with EnsembleError, not with the list of its errors as a result
         from .c04 import check_worker_short_circuit
 
         check_worker_short_circuit(ck, 'C04-3')  # an upstream failure never becomes an element of somebody else's batch
